@@ -138,8 +138,8 @@ def _inline_temps(fn):
                         continue
                     if isinstance(b, ast.Return) and isinstance(b.value, ast.Name) and b.value.id == t and not isinstance(a.value, (ast.Name, ast.Constant)):
                         b.value = a.value
-                    elif isinstance(a.value, (ast.Name, ast.Constant, ast.Attribute)):
-                        continue  # aliases (x, obj.attr) and constants are not temporaries of an expression
+                    elif isinstance(a.value, (ast.Constant, ast.Attribute)):
+                        continue  # obj.attr aliases and named constants are not temporaries of an expression
                     elif isinstance(b, (ast.Assign, ast.AugAssign, ast.Return, ast.Expr)) and b.value is not None:
                         lm = _leftmost(b.value)
                         if not (isinstance(lm, ast.Name) and lm.id == t):
